@@ -1,10 +1,10 @@
 SPECIFICATION Spec
 CONSTANTS
   NRot = 3
-  K = 0
-  M = 1
+  K = 1
+  M = 0
   Variant = "as_coded"
-  Direct = FALSE
+  Direct = TRUE
   GenHist = TRUE
 INVARIANT Emit
 CHECK_DEADLOCK FALSE
